@@ -225,7 +225,9 @@ def main():
         cov["discharged_count"] = cov.pop("discharged")
     ev = {"property_id": prop, "tier": a.tier, "seed": seed, "level": "proof", "coverage": cov,
           "assumptions": getattr(mod, "ASSUMPTIONS", []), "wall_s": round(wall, 1), "violations": nviol}
-    nvlib.write_json(os.path.join(VERIF, "evidence", prop + ".json"), ev)
+    # runs against a seeded change (tools/run_seeded.py) must not overwrite the evidence of the real tree
+    evdir = os.environ.get("NV_EVIDENCE_DIR") or os.path.join(VERIF, "evidence")
+    nvlib.write_json(os.path.join(evdir, prop + ".json"), ev)
     import shutil
     shutil.rmtree(ctx.tmp, ignore_errors=True)
     log("%s %s: %s in %.0fs (corr %d, oracle %d, known %d)" % (prop, a.tier, "OK" if rc == 0 else "VIOLATION",
